@@ -4,7 +4,7 @@
    schedule.  The exclusivity of the lock is the model's assumption; the scheduled rig observes
    it on the real backends (and decides linearizability of the add-version handler, whose first
    request for a new client spans three transactions). *)
-From TSS Require Import Conc Sqlite AStore Http proofs.Atomic proofs.ConcLib proofs.UrgencyArith proofs.Agree proofs.Chain proofs.HttpReach proofs.ConcHttp.
+From TSS Require Import Conc Sqlite AStore Http proofs.Atomic proofs.ConcLib proofs.UrgencyArith proofs.Agree proofs.Chain proofs.HttpReach proofs.ConcHttp ConcRig proofs.ConcRigProps.
 From Coq Require Import Arith.
 Local Open Scope nat_scope.
 
@@ -113,3 +113,11 @@ Example C03_overlap_nonvacuous :
       (th (crun SqliteB hresp (init_sys SqliteB hresp sq_empty (handlers default_config None ex_reqs)) [0; 1; 1; 1; 1; 0; 0; 0; 2; 2]))
   = [Some 409; Some 200; Some 200]%N.
 Proof. exact conc_http_nonvacuous. Qed.
+
+(* (5) the tie to the code: the function the scheduled rig's transaction schedules are replayed
+   with on the extracted model (ConcRig.rig_run: run-one-transaction tokens, begin-while-held
+   probes, final drain) performs a coarse run under SOME schedule — so (1)-(4), which hold for all
+   schedules, speak about exactly the runs that are compared with the real handlers *)
+Theorem C03_rig_runs_are_model_runs : forall B R (s : sys B R) toks,
+  exists sch, rig_run B R s toks = crun B R s sch.
+Proof. exact rig_run_is_crun. Qed.
